@@ -27,7 +27,9 @@ func (w *World) lemmaVC(l *Lemma) (vc *VC, err error) {
 			}
 		}
 	}
-	ec := &evalCtx{vc: vc, env: map[string]Val{}, pkg: pkg}
+	globalEpoch++
+	heap := newHeap(globalEpoch) // lemmas hold for an arbitrary heap
+	ec := &evalCtx{vc: vc, env: map[string]Val{}, pkg: pkg, heap: heap}
 	for _, p := range l.Params {
 		v, sort, guard := ec.boundVar("l$"+p.Name, p.Type)
 		vc.declConst(v.T, sort)
@@ -54,7 +56,7 @@ func (w *World) lemmaVC(l *Lemma) (vc *VC, err error) {
 		for j, p := range other.Params {
 			env[p.Name] = ec.eval(call.Args[j])
 		}
-		sub := &evalCtx{vc: vc, env: env, pkg: pkg}
+		sub := &evalCtx{vc: vc, env: env, pkg: pkg, heap: heap}
 		var reqs []string
 		for _, c := range other.Requires {
 			reqs = append(reqs, sub.evalBool(c.E))
@@ -75,7 +77,7 @@ func (w *World) lemmaVC(l *Lemma) (vc *VC, err error) {
 			env[n] = v
 		}
 		env[l.Induct] = Val{K: KInt, T: sSub(k.T, "1"), Typ: k.Typ}
-		sub := &evalCtx{vc: vc, env: env, pkg: pkg}
+		sub := &evalCtx{vc: vc, env: env, pkg: pkg, heap: heap}
 		var reqs, ens []string
 		for _, c := range l.Requires {
 			reqs = append(reqs, sub.evalBool(c.E))
